@@ -294,7 +294,7 @@ class ConfigParser(ABC):
         for intf_name, intf_cfg in intfs_cfg.items():
             if not intf_name.startswith("interface "):
                 raise ValueError("invalid interface")
-            if access_group_t := re.findall(r"ip access-group (\S+) (\S+)", intf_cfg):
+            if access_group_t := re.findall(r"^ip access-group (\S+) (\S+)", intf_cfg, re.M):
                 for acl_name, direction in access_group_t:
                     if not acl_name:
                         raise ValueError(f"absent access-group {acl_name=}")
@@ -371,4 +371,8 @@ class ConfigParser(ABC):
             return: {"interface GigabitEthernet1/1/1":
                      "ip address 10.0.1.1 255.255.255.0\nip access-group ACL_NAME in"}
         """
-        return {k: s for k, s in self.dic_text.items() if re.search("ip access-group", s, re.M)}
+        return {
+            k: s
+            for k, s in self.dic_text.items()
+            if k.startswith("interface ") and re.search("^ip access-group ", s, re.M)
+        }
